@@ -164,8 +164,19 @@ static void rt_alone(const uint8_t *lz, size_t len, const uint8_t *data, size_t 
 
 // Drives an initialised encoder stream over `data` with random input/output slicing and optional flushes.
 // flushmode: 0 none, 1 LZMA_SYNC_FLUSH, 2 LZMA_FULL_FLUSH, 3 LZMA_FULL_BARRIER (at random points).
+static lzma_ret drive_ex(lzma_stream *s, const uint8_t *data, size_t n, uint64_t seed, int flushmode,
+		uint8_t **out_p, size_t *out_len, unsigned *flushes, bool finish);
+
 static lzma_ret drive(lzma_stream *s, const uint8_t *data, size_t n, uint64_t seed, int flushmode,
 		uint8_t **out_p, size_t *out_len, unsigned *flushes)
+{
+	return drive_ex(s, data, n, seed, flushmode, out_p, out_len, flushes, true);
+}
+
+// finish == false: stop (LZMA_OK) once all of `data` has been handed over with LZMA_RUN, without LZMA_FINISH:
+// the Stream is left unfinished (abandoned).
+static lzma_ret drive_ex(lzma_stream *s, const uint8_t *data, size_t n, uint64_t seed, int flushmode,
+		uint8_t **out_p, size_t *out_len, unsigned *flushes, bool finish)
 {
 	uint64_t st = seed * 0x9E3779B97F4A7C15ull + 99;
 	if (st == 0) st = 1;
@@ -181,6 +192,7 @@ static lzma_ret drive(lzma_stream *s, const uint8_t *data, size_t n, uint64_t se
 	for (unsigned long iter = 0; iter < 100000000ul; ++iter) {
 		if (action == LZMA_RUN && s->avail_in == 0) {
 			if (in_given == n) {
+				if (!finish) { r = LZMA_OK; break; }
 				action = LZMA_FINISH;
 			} else {
 				size_t c = 1 + (size_t)(xs64(&st) % maxin);
@@ -318,6 +330,93 @@ static lzma_ret drive_upd(lzma_stream *s, const uint8_t *data, size_t n, uint64_
 	return r;
 }
 
+static void rt_raw(const uint8_t *raw, size_t len, const lzma_filter *filters, const uint8_t *data, size_t n)
+{
+	uint8_t *buf = malloc(n + 16);
+	size_t in_pos = 0, out_pos = 0;
+	const lzma_ret r = lzma_raw_buffer_decode(filters, NULL, raw, &in_pos, len, buf, &out_pos, n + 16);
+	if (r != LZMA_OK) printf("fail:ret=%d", (int)r);
+	else if (in_pos != len) printf("fail:trailing=%zu", len - in_pos);
+	else if (out_pos != n || memcmp(buf, data, n) != 0) printf("fail:data-differs(len=%zu)", out_pos);
+	else printf("ok");
+	free(buf);
+}
+
+// `reuse` op: several encodings one after the other on ONE lzma_stream handle, without lzma_end() in between.
+//   reuse <seed> <hex> <spec> <chain...> / <spec> <chain...> / ...
+//   spec = <kind>:<check>:<threads>:<blocksize>:<flushmode>:<end>:<percent>
+//     kind: st (lzma_stream_encoder), easy (lzma_easy_encoder, chain = E:<preset>), mt, alone, raw
+//     end:  f = run to LZMA_STREAM_END; a = abandon after the input was given (no LZMA_FINISH);
+//           e = provoke LZMA_PROG_ERROR (LZMA_FINISH followed by LZMA_RUN with new input) and leave it
+//     percent: this encoding uses the first percent% of the data
+// Answer: one token per encoding "<kind><end>:<init ret>:<ret>:<hex or ->:<round trip or ->".
+static void reuse_op(hp_line *l)
+{
+	const uint64_t seed = hp_u64(l->tok[1]);
+	size_t n_all; uint8_t *data = hp_hex(l->tok[2], &n_all);
+	lzma_stream s = LZMA_STREAM_INIT;
+	int i = 3, idx = 0;
+	bool first = true;
+	while (i < l->ntok) {
+		char kind[8] = {0}, end = 'f';
+		unsigned check = 0, threads = 1, fm = 0, pct = 100;
+		unsigned long long bs = 0;
+		if (sscanf(l->tok[i], "%7[a-z]:%u:%u:%llu:%u:%c:%u", kind, &check, &threads, &bs, &fm, &end, &pct) != 7) { printf("bad-op\n"); goto done; }
+		int j = i + 1;
+		while (j < l->ntok && strcmp(l->tok[j], "/") != 0) ++j;
+		rel_chain c;
+		unsigned long preset = 0;
+		const bool easy = !strcmp(kind, "easy");
+		if (easy) {
+			if (j != i + 2 || sscanf(l->tok[i + 1], "E:%lu", &preset) != 1) { printf("bad-op\n"); goto done; }
+		} else {
+			hp_line sub = *l;
+			sub.ntok = j;
+			if (!rel_parse_chain(&sub, i + 1, &c)) { printf("bad-op\n"); goto done; }
+		}
+		const size_t n = (size_t)((unsigned long long)n_all * pct / 100);
+		lzma_ret ir;
+		if (!strcmp(kind, "st")) ir = lzma_stream_encoder(&s, c.f, (lzma_check)check);
+		else if (easy) ir = lzma_easy_encoder(&s, (uint32_t)preset, (lzma_check)check);
+		else if (!strcmp(kind, "mt")) {
+			lzma_mt o = { .flags = 0, .threads = threads, .block_size = bs, .timeout = 0, .filters = c.f, .check = (lzma_check)check };
+			ir = lzma_stream_encoder_mt(&s, &o);
+		} else if (!strcmp(kind, "alone")) ir = lzma_alone_encoder(&s, c.f[0].options);
+		else if (!strcmp(kind, "raw")) ir = lzma_raw_encoder(&s, c.f);
+		else { printf("bad-op\n"); goto done; }
+		printf("%s%s%c:%d:", first ? "" : " ", kind, end, (int)ir);
+		first = false;
+		if (ir != LZMA_OK) {
+			printf("-:-:-");
+		} else {
+			uint8_t *out = NULL; size_t out_len = 0; unsigned flushes = 0;
+			lzma_ret r = drive_ex(&s, data, n, seed + 977 * (uint64_t)idx, (int)fm, &out, &out_len, &flushes, end == 'f');
+			if (end == 'e' && r == LZMA_OK) {
+				uint8_t tmp[64];
+				s.next_in = data; s.avail_in = 0; s.next_out = tmp; s.avail_out = 1;
+				(void)lzma_code(&s, LZMA_FINISH);
+				s.next_in = data; s.avail_in = n_all > 7 ? 7 : n_all; s.next_out = tmp; s.avail_out = sizeof(tmp);
+				r = lzma_code(&s, LZMA_RUN);
+			}
+			printf("%d:", (int)r);
+			if (end == 'f' && r == LZMA_OK) {
+				hp_put_hex(out, out_len);
+				putchar(':');
+				if (!strcmp(kind, "alone")) rt_alone(out, out_len, data, n);
+				else if (!strcmp(kind, "raw")) rt_raw(out, out_len, c.f, data, n);
+				else rt_stream(out, out_len, data, n);
+			} else printf("-:-");
+			free(out);
+		}
+		++idx;
+		i = j + 1;
+	}
+	putchar('\n');
+done:
+	lzma_end(&s);
+	free(data);
+}
+
 bool c02_rel(hp_line *l)
 {
 	const char *op = l->tok[0];
@@ -443,6 +542,9 @@ bool c02_rel(hp_line *l)
 			printf("%s%" PRIu64 ":%c:%d:%u:%d", e ? "," : "", ev[e].off, ev[e].kind, ev[e].idx, ev[e].props, ev[e].ret);
 		putchar('\n');
 		free(out); free(data);
+
+	} else if (!strcmp(op, "reuse") && nt >= 5) {
+		reuse_op(l);
 
 	} else if (!strcmp(op, "alone") && nt == 4) {
 		rel_chain c;
